@@ -63,7 +63,7 @@ class Ack(object):
 
 
 def shape_error(segs):
-    """None when the segment ids spell  ISA GS (ST AK1 (AK2 ((AK3|IK3) (CTX)* ((AK4|IK4) (CTX)*)*)* (AK5|IK5))* AK9 SE)+ GE (TA1)* IEA  -
+    """None when the segment ids spell  ISA GS (ST AK1 (AK2 ((AK3|IK3) (CTX)* ((AK4|IK4) (CTX)*)*)* (AK5|IK5))* AK9 SE)+ GE [TA1] IEA  -
     the grammar of a 997 / 999 - else a short description of the first place where they do not"""
     ids = [s for s, e in segs]
     i = 0
@@ -104,8 +104,8 @@ def shape_error(segs):
     if at(i) != 'GE':
         return 'after the last SE comes %s, not GE (segment %d - an acknowledgement segment outside ST..SE?)' % (at(i), i + 1)
     i += 1
-    while at(i) == 'TA1':
-        i += 1
+    if at(i) == 'TA1':
+        i += 1                 # at most one: the acknowledgement is ONE interchange, whose grammar allows a single TA1
     if at(i) != 'IEA' or i != len(ids) - 1:
-        return 'does not end with GE (TA1) IEA (segment %d: %s)' % (i + 1, at(i))
+        return 'does not end with GE [TA1] IEA (segment %d: %s)' % (i + 1, at(i))
     return None
